@@ -43,8 +43,14 @@ def build(modes=("dev",)):
     return bins
 
 
+class HarnessCrash(Exception):
+    """the harness process died (stack overflow / abort inside the code under test)"""
+
+
 def pvh(binpath, args, timeout=1800):
     r = subprocess.run([binpath] + [str(a) for a in args], stdout=subprocess.PIPE, stderr=subprocess.PIPE, text=True, timeout=timeout)
+    if r.returncode in (134, -6, -11, 139):
+        raise HarnessCrash((r.stderr or "").strip().splitlines()[-2:] )
     if r.returncode not in (0,):
         sys.stderr.write(r.stderr[-2000:])
         raise ToolError("pvh %s exited %d" % (args[0], r.returncode))
